@@ -1265,6 +1265,33 @@ Proof.
       rewrite M. apply (canon_area x0 x1 y0 y1 Hx Hy).
 Qed.
 
+(* the same pass with its vertex list: a canonical rectangle again, or the canonical rectangle rotated by one place *)
+Lemma pass_bottom_list x0 x1 y0 y1 : x0 <= x1 -> y0 <= y1 ->
+  (y1 < by0 /\ clip_pass Qops B2 B3 (canon x0 x1 y0 y1) = []) \/
+  (by0 <= y1 /\
+   (leq (clip_pass Qops B2 B3 (canon x0 x1 y0 y1)) (canon x0 x1 (Qmax y0 by0) y1) \/
+    leq (clip_pass Qops B2 B3 (canon x0 x1 y0 y1))
+        [(x0, Qmax y0 by0); (x0, y1); (x1, y1); (x1, Qmax y0 by0)])).
+Proof.
+  intros Hx Hy. unfold clip_pass, canon. cbn [last clip_walk].
+  destruct (Qlt_le_dec y1 by0) as [C1|C1]; [left | right]; (split; [assumption|]).
+  - rewrite !clip_step_out_out by (sgn E_bottom). reflexivity.
+  - destruct (Qlt_le_dec y0 by0) as [C0|C0]; [right | left].
+    + rewrite (clip_step_out_in B2 B3 (x0, y0) (x0, y1)) by (sgn E_bottom).
+      rewrite (clip_step_in_in B2 B3 (x0, y1) (x1, y1)) by (sgn E_bottom).
+      rewrite (clip_step_in_out B2 B3 (x1, y1) (x1, y0)) by (sgn E_bottom).
+      rewrite (clip_step_out_out B2 B3 (x1, y0) (x0, y0)) by (sgn E_bottom).
+      cbn [app]. assert (M : Qmax y0 by0 == by0) by (apply Q.max_r; lra).
+      repeat (apply Forall2_cons); try apply Forall2_nil; try apply peq_refl.
+      * apply ci_point; [left; split; sgn E_bottom | |]; unfold ci_t; rewrite !E_bottom; cbn [px py fst snd];
+          rewrite ?M; field; repeat split; intro Z; nra.
+      * apply ci_point; [right; split; sgn E_bottom | |]; unfold ci_t; rewrite !E_bottom; cbn [px py fst snd];
+          rewrite ?M; field; repeat split; intro Z; nra.
+    + rewrite !clip_step_in_in by (sgn E_bottom). cbn [app].
+      assert (M : Qmax y0 by0 == y0) by (apply Q.max_l; lra).
+      repeat (apply Forall2_cons); try apply Forall2_nil; split; cbn [px py fst snd]; rewrite ?M; reflexivity.
+Qed.
+
 End AxisAligned.
 
 Lemma leq_nil_r l : leq l [] -> l = [].
